@@ -157,7 +157,17 @@ pub fn plan(prop: &str, tier: &str) -> (PropMeta, Vec<Job>) {
     };
     let cap = if quick { 240 } else { 1500 };
     let (ret, plain): (Vec<NodeCfg>, Vec<NodeCfg>) = cfgs.iter().cloned().partition(|c| c.expiry_us > 0);
-    let mut pj = make_jobs(prop, &plain, &|c| alpha(c), depth, split, cap);
+    let mut pj = if !quick && prop == "C03" {
+        // thorough C03: full depth on the corner set (threshold 2, small segments, no fsync, no dedup) and on the
+        // tiny-cache configurations, two steps less on the rest of the grid (192 configurations at depth 6 take hours)
+        let (corner, rest): (Vec<NodeCfg>, Vec<NodeCfg>) =
+            plain.iter().cloned().partition(|c| c.threshold == 2 && c.seg_size == SEG_SMALL && !c.fsync && !c.dedup);
+        let mut v = make_jobs(prop, &corner, &|c| alpha(c), depth, split, cap);
+        v.extend(make_jobs(prop, &rest, &|c| alpha(c), depth - 2, split, cap));
+        v
+    } else {
+        make_jobs(prop, &plain, &|c| alpha(c), depth, split, cap)
+    };
     // the retention corner has a smaller alphabet and needs one more step (fill, expire, pass, restart, send)
     pj.extend(make_jobs(prop, &ret, &|c| alpha(c), depth + 1, split, cap));
     let jobs = pj
